@@ -376,6 +376,60 @@ static SRes c14Once(const Instance& I, const ParamSet& cfg, uint64_t sub, bool c
       }
       cleanup();
    }
+   // ---- (3) rational state files: a solver that holds the rational LP (sync mode auto) writes its state with writeStateRational
+   //      and write-zero-objective on; the LP file must keep every column the basis file names (same dimensions after reading back)
+   if(R.tag.empty() && n > 0)
+   {
+      if(count) S.count("c14.rational_state_roundtrips." + tag);
+      int emptyZero = 0;
+      for(int j = 0; j < n; j++)
+      {
+         bool nz = !(M.obj[j] == 0);
+         for(int i = 0; i < m && !nz; i++) nz = !(M.A[i][j] == 0);
+         if(!nz) emptyZero++;
+      }
+      if(count && emptyZero > 0) S.count("c14.rational_state_roundtrips.with-empty-zero-objective-column");
+      std::string prefix = base + "_rstate";
+      std::string lpf = prefix + (cpx ? ".lp" : ".mps"), basf = prefix + ".bas", setf = prefix + ".set";
+      auto cleanup3 = [&]()
+      {
+         remove(lpf.c_str());
+         remove(basf.c_str());
+         remove(setf.c_str());
+      };
+      SoPlex r;
+      quiet(r);
+      r.setIntParam(SoPlex::SYNCMODE, SoPlex::SYNCMODE_AUTO, true);
+      loadReal(r, M, 0);
+      bool wrote = true;
+      try
+      {
+         r.writeStateRational(prefix.c_str(), nullptr, nullptr, cpx, true);
+      }
+      catch(const SPxException& e)
+      {
+         wrote = false;
+         std::string w = e.what();
+         R.set("exception.writeStateRational." + w.substr(0, 8) + (cpx ? ".lp" : ".mps"), "writeStateRational threw: " + w);
+      }
+      if(wrote)
+      {
+         SoPlex q;
+         quiet(q);
+         q.setIntParam(SoPlex::SYNCMODE, SoPlex::SYNCMODE_AUTO, true);
+         bool ok = q.readFile(lpf.c_str(), nullptr, nullptr);
+         if(!ok) R.set("rstate.lp-rejected." + tag, "readFile rejects the LP file written by writeStateRational:\n" + slurp(lpf).substr(0, 1500));
+         else
+         {
+            int ranged = 0;
+            for(int i = 0; i < m; i++) if(isFin(M.lhs[i]) && isFin(M.rhs[i]) && M.lhs[i] != M.rhs[i]) ranged++;
+            bool dimsOk = q.numCols() == n && (q.numRows() == m || (cpx && q.numRows() == m + ranged));
+            if(!dimsOk) R.set("rstate.lp-dims." + tag, "LP restored from writeStateRational(writeZeroObjective=true) is " + std::to_string(q.numRows()) + "x" + std::to_string(
+                                    q.numCols()) + ", saved " + std::to_string(m) + "x" + std::to_string(n) + " (" + std::to_string(emptyZero) + " empty zero-objective columns)");
+         }
+      }
+      cleanup3();
+   }
    return R;
 }
 
